@@ -1,8 +1,8 @@
 """Run ONE shard of a check in THIS interpreter and hand the result back as a pickle on stdout.
 
-Started by the runner as ``python -O -m dalimc.core.optshard <CHECK-ID>`` (shard pickled on stdin): the same
-oracles with assert statements compiled out of the library - behaviour a user relies on must not hinge on an
-interpreter option.
+Started by the runner as ``python -O -m dalimc.core.optshard <CHECK-ID>`` (shard pickled on stdin; every other
+picked shard with ``-OO``, which also strips docstrings): the same oracles with assert statements compiled out of
+the library - behaviour a user relies on must not hinge on an interpreter option.
 """
 import pickle
 import sys
